@@ -52,6 +52,7 @@ func TestMain(m *testing.M) {
 type stubCS struct {
 	ready      bool
 	clientFail bool
+	workerFail bool // only the case's goroutine gets a client (the background counter worker finds no server)
 	client     gatewayclientset.Interface
 	owner      uint64 // goroutine of the case: only it sees the scripted readiness
 }
@@ -70,7 +71,7 @@ func goid() uint64 {
 
 func (s *stubCS) GetAllClients() []gatewayclientset.Interface { return nil }
 func (s *stubCS) ClientFor(cluster string) (gatewayclientset.Interface, error) {
-	if s.clientFail {
+	if s.clientFail || (s.workerFail && goid() != s.owner) {
 		return nil, fmt.Errorf("server shard 0 has no leader")
 	}
 	return s.client, nil
@@ -515,7 +516,7 @@ func TestPropCountMaxInflight(t *testing.T) {
 		l := int32(rapid.IntRange(1, 5).Draw(t, "L"))
 		g := l + int32(rapid.IntRange(0, 5).Draw(t, "Gextra"))
 		srv := newServer(false)
-		srv.cs.clientFail = true // the background counter worker finds no server; answers come from the history only
+		srv.cs.workerFail = true // the background counter worker finds no server; answers come from the history only
 		ctx, cancel := context.WithCancel(context.Background())
 		defer cancel()
 		ul := flowcontrols.NewUpstreamLimiter(ctx, "c1", "", srv.cs)
@@ -699,8 +700,16 @@ func TestPropCountMaxInflight(t *testing.T) {
 				nl := int32(rapid.IntRange(1, 5).Draw(t, "newL"))
 				ng := nl + int32(rapid.IntRange(0, 5).Draw(t, "newGextra"))
 				ul.Sync(schemaMIF(proxyv1alpha1.GlobalCountLimit, nl, ng))
+				// the allocate round trip of this reconcile round succeeds, finds no server for the shard, or is refused
+				// by the server (the counted schema does not depend on it)
+				alloc := rapid.SampledFrom([]string{"ok", "no-client", "refused"}).Draw(t, "allocate")
+				srv.cs.clientFail, srv.next.Err = alloc == "no-client", alloc == "refused"
 				remote.VerifReconcileOnce(flowcontrols.VerifReconcile(ul))
-				trace += fmt.Sprintf("schema(L=%d,G=%d);", nl, ng)
+				srv.cs.clientFail, srv.next.Err = false, false
+				trace += fmt.Sprintf("schema(L=%d,G=%d,allocate=%s);", nl, ng, alloc)
+				if alloc != "ok" {
+					sub.Class("schema-update-while-the-allocate-call-fails")
+				}
 				l = nl
 				if nl < lLow {
 					lLow = nl
